@@ -299,6 +299,7 @@ static void build(vf::Plan &plan, const vf::Opts &o)
                    c.nontrivial();
                },
                [](uint64_t) { return std::string("(nullptr, 0) in every mode"); });
+    vf_early::add_stage(plan);
 }
 
 VF_MAIN("C03", build)
